@@ -13,12 +13,22 @@ for d in $src/*/; do
   if grep -q "^$n	" /verif/seeded/verified.tsv 2>/dev/null; then continue; fi
   git checkout -q -- . ; rm -f examples/demo.rs
   if ! git apply --check $d/patch.diff 2>/dev/null; then echo -e "$n\tNOAPPLY" >> $out; continue; fi
+  # C09 demos need walrus's `parallel` feature (and rayon), which the test
+  # suite is built without: the suite runs before the demo is copied in
+  feat=""; case $n in C09*) feat="--features parallel";; esac
+  if [ -n "$feat" ]; then
+    git apply $d/patch.diff
+    if timeout 900 cargo test -q --offline -p walrus -p walrus-tests -p walrus-macro >/tmp/seedverify.log 2>&1; then tests=pass; else tests=FAIL; fi
+    git apply -R $d/patch.diff
+  fi
   cp $d/demo.rs examples/demo.rs
   # pristine: demo must pass
-  if timeout 600 cargo run -q --offline --example demo >/dev/null 2>&1; then clean=pass; else clean=FAIL; fi
+  if timeout 600 cargo run -q --offline $feat --example demo >/dev/null 2>&1; then clean=pass; else clean=FAIL; fi
   git apply $d/patch.diff
-  if timeout 900 cargo test -q --offline -p walrus -p walrus-tests -p walrus-macro >/tmp/seedverify.log 2>&1; then tests=pass; else tests=FAIL; fi
-  if timeout 600 cargo run -q --offline --example demo >/dev/null 2>&1; then patched=PASS; else patched=fail; fi
+  if [ -z "$feat" ]; then
+    if timeout 900 cargo test -q --offline -p walrus -p walrus-tests -p walrus-macro >/tmp/seedverify.log 2>&1; then tests=pass; else tests=FAIL; fi
+  fi
+  if timeout 600 cargo run -q --offline $feat --example demo >/dev/null 2>&1; then patched=PASS; else patched=fail; fi
   echo -e "$n\tclean-demo=$clean\ttests-with-patch=$tests\tpatched-demo=$patched" >> $out
 done
 git checkout -q -- . ; rm -f examples/demo.rs
